@@ -39,8 +39,14 @@ func (x *ex) stepExt(idx int, o Op) {
 		if !oracle("flags=fold-of-flag-ops", res == want) {
 			setFail("flags=fold-of-flag-ops", idx, res+" want "+want)
 		}
+		var usx *unionstore.KVUnionStore
 		if us, isUS := t.(*usTarget); isUS {
-			has := us.us.HasPresumeKeyNotExists(k)
+			usx = us.us
+		} else if tt, isTxn := t.(*txnTarget); isTxn {
+			usx = tt.txn.GetUnionStore()
+		}
+		if usx != nil {
+			has := usx.HasPresumeKeyNotExists(k)
 			if !oracle("has-presume-kne", has == (ok && wf&(1|4096) != 0)) {
 				setFail("has-presume-kne", idx, fmt.Sprint(has))
 			}
@@ -64,7 +70,13 @@ func (x *ex) stepExt(idx int, o Op) {
 		}
 	case "len":
 		var n, sz int
-		pan := protect(func() { n, sz = buf.Len(), buf.Size() })
+		pan := protect(func() {
+			if tt, isTxn := t.(*txnTarget); isTxn {
+				n, sz = tt.txn.Len(), tt.txn.Size() // the transaction's own accessors
+			} else {
+				n, sz = buf.Len(), buf.Size()
+			}
+		})
 		res := fmt.Sprintf("len %d size %d", n, sz)
 		if pan != "" {
 			res = "panic"
